@@ -187,7 +187,7 @@ func c13ValidCountersignature(name string) *Countersignature {
 
 // c13GoValue: a header value of one of 15 Go kinds and its CBOR-level description
 func c13GoValue(name string, full bool) (any, specEntry) {
-	n := 15
+	n := 16
 	if !full {
 		n = 2
 		if vTier() == 1 {
@@ -245,6 +245,8 @@ func c13GoValue(name string, full bool) (any, specEntry) {
 		return []*Countersignature{c13ValidCountersignature(name + ".0"), c13ValidCountersignature(name + ".1")}, specEntry{kind: skCsigList}
 	case 13:
 		return 1.5, specEntry{kind: skFloat}
+	case 15: // a nil byte slice (e.g. the unset ID of a key): the encoder writes null for it
+		return []byte(nil), specEntry{kind: skNil}
 	}
 	return uint16(vInt64(name + ".vu16")), specEntry{kind: skUint}
 }
@@ -526,26 +528,54 @@ func H_C13_cross_bucket() {
 	vAssume(vOr(sp.i == 5, sp.i == 6))
 	vAssume(vOr(su.i == 5, su.i == 6))
 	clash := sp.i != su.i
-	msg := &Sign1Message{
-		Headers:   Headers{Protected: ProtectedHeader{lp: vBlob("pv")}, Unprotected: UnprotectedHeader{lu: vBlob("uv")}},
-		Payload:   vBlob("payload"),
-		Signature: vBlobN("sig", 1, 64),
-	}
-	_, err := msg.MarshalCBOR()
-	if clash {
-		vAssert("cross: IV and Partial IV in different buckets of one layer refused on encode", err != nil)
-	} else {
-		vAssert("cross: the same parameter in both buckets is not the IV/PIV rule", err == nil)
-	}
-	// the same on the wire
+	// the layer under test sits in every structure that has headers
+	h := Headers{Protected: ProtectedHeader{lp: vBlob("pv")}, Unprotected: UnprotectedHeader{lu: vBlob("uv")}}
+	plain := Headers{Protected: ProtectedHeader{}, Unprotected: UnprotectedHeader{}}
+	sig := vBlobN("sig", 1, 64)
 	pm := nnMap([]*vNodeT{nnInt(0, uint64(sp.i), -1), nnBstr(vBlob("wpv"), -1)}, -1)
 	um := nnMap([]*vNodeT{nnInt(0, uint64(su.i), -1), nnBstr(vBlob("wuv"), -1)}, -1)
-	wire := vSer(nnTag(18, nnArray([]*vNodeT{nnBstr(vSer(pm), -1), um, nnBstr(vBlob("wpl"), -1), nnBstr(vBlobN("wsig", 1, 64), -1)}, 0), 0))
-	var d Sign1Message
-	derr := d.UnmarshalCBOR(wire)
+	wl := []*vNodeT{nnBstr(vSer(pm), -1), um} // the layer on the wire
+	wplain := []*vNodeT{nnBstr([]byte{}, -1), nnMap(nil, -1)}
+	wsig := nnBstr(vBlobN("wsig", 1, 64), -1)
+	wpl := nnBstr(vBlob("wpl"), -1)
+	var err, derr error
+	switch vChoose("structure", 7) {
+	case 0:
+		_, err = (&Sign1Message{Headers: h, Payload: vBlob("payload"), Signature: sig}).MarshalCBOR()
+		var d Sign1Message
+		derr = d.UnmarshalCBOR(vSer(nnTag(18, nnArray([]*vNodeT{wl[0], wl[1], wpl, wsig}, 0), 0)))
+	case 1:
+		_, err = (&UntaggedSign1Message{Headers: h, Payload: vBlob("payload"), Signature: sig}).MarshalCBOR()
+		var d UntaggedSign1Message
+		derr = d.UnmarshalCBOR(vSer(nnArray([]*vNodeT{wl[0], wl[1], wpl, wsig}, 0)))
+	case 2: // body of a COSE_Sign
+		_, err = (&SignMessage{Headers: h, Payload: vBlob("payload"), Signatures: []*Signature{{Headers: plain, Signature: sig}}}).MarshalCBOR()
+		var d SignMessage
+		derr = d.UnmarshalCBOR(vSer(nnTag(98, nnArray([]*vNodeT{wl[0], wl[1], wpl, nnArray([]*vNodeT{nnArray([]*vNodeT{wplain[0], wplain[1], wsig}, 0)}, 0)}, 0), 1)))
+	case 3: // a signer inside a COSE_Sign
+		_, err = (&SignMessage{Headers: plain, Payload: vBlob("payload"), Signatures: []*Signature{{Headers: h, Signature: sig}}}).MarshalCBOR()
+		var d SignMessage
+		derr = d.UnmarshalCBOR(vSer(nnTag(98, nnArray([]*vNodeT{wplain[0], wplain[1], wpl, nnArray([]*vNodeT{nnArray([]*vNodeT{wl[0], wl[1], wsig}, 0)}, 0)}, 0), 1)))
+	case 4:
+		_, err = (&Signature{Headers: h, Signature: sig}).MarshalCBOR()
+		var d Signature
+		derr = d.UnmarshalCBOR(vSer(nnArray([]*vNodeT{wl[0], wl[1], wsig}, 0)))
+	case 5:
+		_, err = (&Countersignature{Headers: h, Signature: sig}).MarshalCBOR()
+		var d Countersignature
+		derr = d.UnmarshalCBOR(vSer(nnArray([]*vNodeT{wl[0], wl[1], wsig}, 0)))
+	case 6: // a countersignature carried as a header value
+		outer := Headers{Protected: ProtectedHeader{}, Unprotected: UnprotectedHeader{HeaderLabelCounterSignatureV2: &Countersignature{Headers: h, Signature: sig}}}
+		_, err = (&Sign1Message{Headers: outer, Payload: vBlob("payload"), Signature: vBlobN("osig", 1, 64)}).MarshalCBOR()
+		var d Sign1Message
+		cs := nnArray([]*vNodeT{wl[0], wl[1], wsig}, 0)
+		derr = d.UnmarshalCBOR(vSer(nnTag(18, nnArray([]*vNodeT{wplain[0], nnMap([]*vNodeT{nnInt(0, 11, -1), cs}, -1), wpl, nnBstr(vBlobN("wosig", 1, 64), -1)}, 0), 0)))
+	}
 	if clash {
+		vAssert("cross: IV and Partial IV in different buckets of one layer refused on encode", err != nil)
 		vAssert("cross: IV and Partial IV in different buckets of one layer refused on decode", derr != nil)
 	} else {
+		vAssert("cross: the same parameter in both buckets is not the IV/PIV rule", err == nil)
 		vAssert("cross: accepted on decode", derr == nil)
 	}
 	vReach("end")
